@@ -484,7 +484,7 @@ func run(prop string) int {
 	os.Setenv("RAFTMC_COORD", strconv.Itoa(os.Getpid()))
 	total := 100 * time.Second
 	if tier == "thorough" {
-		total = 30 * time.Minute // 17 min for the boxes up to round 2 + 7 min for the apply-lag boxes B10 / B11 + 6 min for the persist-lag boxes B12*
+		total = 32 * time.Minute // 17 min for the boxes up to round 2 + 7 min for the apply-lag boxes B10 / B11 + 7 min of slices (6 min used) for the persist-lag boxes B12*
 	}
 	if s := os.Getenv("RAFTMC_BUDGET_S"); s != "" {
 		if n, err := strconv.Atoi(s); err == nil {
@@ -664,7 +664,7 @@ func run(prop string) int {
 	cov["apply_lag_coverage"] = lagcov
 	// persist lag (boxes B12*): a node that holds whole Readys before persisting them
 	plagcov := map[string]interface{}{}
-	for _, b := range []int{bit(fReadyHeldWhole), bit(fWhileHeldWhole), bit(fTruncHeldWhole), bit(fTruncMidHeldWhole), bit(fTruncInReady), bit(fPersistRelease), bit(fCrashHeldWhole)} {
+	for _, b := range []int{bit(fReadyHeldWhole), bit(fWhileHeldWhole), bit(fTruncHeldWhole), bit(fTruncMidHeldWhole), bit(fTruncInReady), bit(fPersistRelease), bit(fCrashHeldWhole), bit(fSnapHeldWhole)} {
 		plagcov[flagNames[b]] = agg[flagNames[b]]
 	}
 	plagEv := map[string]int{}
